@@ -105,7 +105,9 @@ def harness_tov(sym):
 
 def _tov_shards(tier):
     n = 2 if tier == "quick" else 4
-    return [{"kind": k, "op": op, "max_len": n, "blanks": 3 if tier == "quick" else 5} for k in NODE_KINDS for op in _ops(k)]
+    # quick: Alarm shares class NodeWithCondition (operator list and code path) with Watch and is left to the thorough tier
+    kinds = NODE_KINDS if tier != "quick" else ["Watch", "Simulate"]
+    return [{"kind": k, "op": op, "max_len": n, "blanks": 3 if tier == "quick" else 5} for k in kinds for op in _ops(k)]
 
 
 # ---------------------------------------------------------------------------------------------------------------------
@@ -264,8 +266,8 @@ OBLIGATIONS = [
                  "openpectus.lang.model.parser:count_trailing_spaces"],
         symbolic="the tag name (string over 'A','b','1','_',' ' without leading/trailing blank); selectors: blanks around the operator "
                  "(3 patterns quick / 5 thorough), leading blank of the argument, right-hand side (1 | -12.5 L/h | 5% | Open 1)",
-        bounds={"quick": "tag name length 1..2; every operator of Watch, Alarm (<=, >=, ==, !=, <, >, =) and Simulate (=)",
-                "thorough": "tag name length 1..4; same operators"},
+        bounds={"quick": "tag name length 1..2; every operator of Watch (<=, >=, ==, !=, <, >, =) and Simulate (=)",
+                "thorough": "tag name length 1..4; Watch, Alarm and Simulate with all their operators"},
         assumptions=["the node is set up as _parse_line does (arguments_part, arguments_range) and _parse_tag_operator_value is called directly",
                      "the right-hand side is concretised before the two rhs regular expressions run (C regex engine); the left-hand side never reaches a regex",
                      "documented tag language: no operator characters, '#' or ':' in tag names",
